@@ -72,7 +72,7 @@ func (g *Gen) stmt(o *out, sc *Scope, depth int) {
 		g.stat("y")
 		o.line("y(%d)", g.yk)
 	}
-	k := g.n(32)
+	k := g.n(33)
 	if depth <= 0 && k >= 8 && k <= 17 {
 		k = g.n(8)
 	}
@@ -146,6 +146,8 @@ func (g *Gen) stmt(o *out, sc *Scope, depth int) {
 		g.tupleIndexStmt(o, sc)
 	case 26:
 		g.redeclareStmt(o, sc)
+	case 27:
+		g.argOrderStmt(o, sc)
 	default:
 		g.assign(o, sc)
 	}
@@ -184,6 +186,8 @@ func (g *Gen) opAssign(o *out, sc *Scope) {
 	for _, v := range sc.all() {
 		if v.T.Kind == KSlice && v.T.Elem == t {
 			ps = append(ps, fmt.Sprintf("%s[ix(next(), len(%s))]", v.Name, v.Name))
+			// the index operand is evaluated once, also when it is wrapped in a conversion
+			ps = append(ps, fmt.Sprintf("%s[%s(ix(next(), len(%s)))]", v.Name, []string{"int8", "uint16", "int64", "uint"}[g.n(4)], v.Name))
 		}
 		if v.T.Kind == KMap && v.T.Elem == t {
 			ks := keyLits(v.T.Key)
@@ -783,7 +787,28 @@ func (g *Gen) deferStmt(o *out, sc *Scope) {
 		return
 	}
 	t := g.scalarOf(KInt)
-	switch g.n(3) {
+	switch g.n(4) {
+	case 3:
+		// the deferred function changes variables after the results of a later return
+		// statement have been evaluated (and may suspend while it does so)
+		o.line("defer func() {")
+		o.ind++
+		if g.Opt.Yield {
+			g.yk++
+			o.line("y(%d)", g.yk)
+		}
+		c := sc.child()
+		g.assign(o, c)
+		g.opAssign(o, c)
+		if g.Opt.Yield {
+			g.yk++
+			o.line("y(%d)", g.yk)
+		}
+		g.emitVars(o, sc, "dm")
+		o.ind--
+		o.line("}()")
+		g.stat("defer-mutate")
+		return
 	case 0:
 		// argument evaluated at the defer statement
 		o.line("defer emit(\"d\", %s)", g.showOf(t, g.expr(t, sc, 1)))
@@ -823,12 +848,28 @@ func (g *Gen) methodStmt(o *out, sc *Scope) {
 		args[i] = g.expr(p, sc, 1)
 	}
 	call := recv + "." + f.Name + "(" + strings.Join(args, ", ") + ")"
-	switch g.n(4) {
+	switch g.n(6) {
 	case 0:
 		// method value
 		mv := g.newName(sc)
 		o.line("%s := %s.%s", mv, recv, f.Name)
 		call = mv + "(" + strings.Join(args, ", ") + ")"
+	case 4:
+		// method value bound before the receiver variable changes: a value receiver was copied
+		// at binding time, a pointer receiver sees the change
+		mv := g.newName(sc)
+		o.line("%s := %s.%s", mv, recv, f.Name)
+		o.line("%s = %s", recv, g.expr(f.Recv, sc, 1))
+		call = mv + "(" + strings.Join(args, ", ") + ")"
+	case 5:
+		// deferred method call: receiver and arguments are evaluated at the defer statement
+		if !g.Opt.NoDefer && sc.Loop == 0 {
+			o.line("defer %s", call)
+			o.line("%s = %s", recv, g.expr(f.Recv, sc, 1))
+			o.line("emit(\"mr\", %s)", g.showOf(f.Recv, recv))
+			g.stat("method-defer")
+			return
+		}
 	case 1:
 		// method expression
 		rt := f.Recv.Name
@@ -921,4 +962,42 @@ func (g *Gen) redeclareStmt(o *out, sc *Scope) {
 	o.line("%s, %s := %s, %s", a, nb, g.composite(t, sc, 1), g.expr(g.U.TI, sc, 1))
 	o.line("emit(\"rd\", %s+\"|\"+%s+\"|\"+itoa(int(%s))+btoa(%s == &%s))", g.showOf(t, "*"+p), g.showOf(t, a), nb, p, a)
 	g.stat("redeclare")
+}
+
+// argOrderStmt: the operands of a call are evaluated in source order, whatever mixture of
+// suspending and plain calls they are (each seq traces the moment it runs).
+func (g *Gen) argOrderStmt(o *out, sc *Scope) {
+	n := 2 + g.n(5)
+	args := make([]string, n)
+	for i := range args {
+		k := g.n(90) + 10
+		switch c := g.n(5); {
+		case c == 0 && g.Opt.Yield:
+			g.yk++
+			args[i] = fmt.Sprintf("yv(%d, seq(%d))", g.yk, k)
+		case c == 1 && g.Opt.Yield:
+			g.yk++
+			args[i] = fmt.Sprintf("seq(%d)+yv(%d, I(1))", k, g.yk)
+		case c == 2:
+			args[i] = fmt.Sprint(k)
+		case c == 3:
+			args[i] = fmt.Sprintf("seq(%d)*next()", k)
+		default:
+			args[i] = fmt.Sprintf("seq(%d)", k)
+		}
+	}
+	a := strings.Join(args, ", ")
+	switch g.n(4) {
+	case 0:
+		o.line("emit(\"ao\", aoT{%s}.m(%s))", args[0], strings.Join(args[1:], ", "))
+	case 1:
+		if !g.Opt.NoDefer && sc.Loop == 0 {
+			o.line("defer aoEmit(%s)", a)
+			break
+		}
+		fallthrough
+	default:
+		o.line("emit(\"ao\", ao(%s))", a)
+	}
+	g.stat("arg-order")
 }
